@@ -384,7 +384,9 @@ class HTMLParserTreeBuilder(HTMLTreeBuilder):
                 extra_parser_kwargs[arg] = value
         super(HTMLParserTreeBuilder, self).__init__(**kwargs)
         parser_args = parser_args or []
-        parser_kwargs = parser_kwargs or {}
+        # Work on a copy: the caller's dictionary must not pick up
+        # this builder's options (it may be passed to another builder).
+        parser_kwargs = dict(parser_kwargs or {})
         parser_kwargs.update(extra_parser_kwargs)
         parser_kwargs["convert_charrefs"] = False
         self.parser_args = (parser_args, parser_kwargs)
